@@ -649,6 +649,25 @@ func checkConversionErrors(c *Ctx, r *Rec, info *types.Info, pms map[string]*ast
 							})
 							return f
 						},
+						// only the failing case needs a consumer: behind a test of the error the path on
+						// which it is nil is not followed
+						edgeOK: func(cond ast.Expr, pol bool) bool {
+							if be, ok := ast.Unparen(cond).(*ast.BinaryExpr); ok && (be.Op == token.NEQ || be.Op == token.EQL) {
+								var other ast.Expr
+								switch {
+								case isObj(info, be.X, eobj):
+									other = be.Y
+								case isObj(info, be.Y, eobj):
+									other = be.X
+								}
+								if other != nil {
+									if tv, ok := info.Types[other]; ok && tv.IsNil() {
+										return (be.Op == token.NEQ) == pol
+									}
+								}
+							}
+							return true
+						},
 						goalNode: func(nd ast.Node) bool { _, isRet := nd.(*ast.ReturnStmt); return isRet }})
 					if leak {
 						consumed = false
